@@ -28,12 +28,13 @@ if [ -d "$SCR/src/verif/bridge" ]; then
 fi
 "$VINSTR" "$SCR/src" 2>"$SCR/vinstr.log" || { cat "$SCR/vinstr.log"; echo "HARNESS-ERROR: vinstr failed"; exit 2; }
 BIN="$SCR/dtnmc"
-(cd "$SCR/src" && go build -trimpath -o "$BIN" ./verif/cmd/dtnmc) >"$SCR/build.log" 2>&1 || {
+(cd "$SCR/src" && go build ${VERIF_RACE:+-race} -trimpath -o "$BIN" ./verif/cmd/dtnmc) >"$SCR/build.log" 2>&1 || {
   cat "$SCR/build.log"; echo "HARNESS-ERROR: build of instrumented tree failed (not a verdict)"; exit 2; }
 export VERIF_SCRATCH="$SCR/work"; mkdir -p "$VERIF_SCRATCH"
 export VERIF_BIN="$BIN" VERIF_SRC="$SCR/src"
 if [ -n "${VERIF_KEEP:-}" ]; then cp "$BIN" /dev/shm/dtnmc-keep; fi
 if [ "$PROP" = BENCH ]; then "$BIN" bench "$@"; exit $?; fi
+if [ "$PROP" = FREERUN ]; then "$BIN" freerun "$@"; exit $?; fi
 "$BIN" "$PROP" "$@"
 rc=$?
 exit $rc
